@@ -116,6 +116,7 @@ type Contract struct {
 }
 
 type LoopSpec struct {
+	Exit  []*Clause  // proved on every edge leaving the loop (one obligation per exit edge), then assumed
 	Ghost []GhostDef // snapshots taken at the loop head (after havoc), visible in lemma clauses
 	Lemma []*Clause // proved (then assumed) at every back edge before the invariants
 	Inv  []*Clause
@@ -145,6 +146,7 @@ type Axiom struct {
 }
 
 type Contracts struct {
+	ModSets map[string][]string
 	Funcs  map[string]*Contract
 	Specs  map[string]*SpecFunc
 	Axioms []*Axiom
@@ -474,7 +476,7 @@ var reFuncHdr = regexp.MustCompile(`^(trusted\s+)?func\s+(\S.*)$`)
 var reSpecHdr = regexp.MustCompile(`^(uninterpreted\s+|opaque\s+)?spec\s+func\s+(\w+)\s*\(([^)]*)\)\s*(\S+)?\s*(=\s*(.*))?$`)
 
 func LoadContracts(files []string) (*Contracts, error) {
-	cs := &Contracts{Funcs: map[string]*Contract{}, Specs: map[string]*SpecFunc{}}
+	cs := &Contracts{Funcs: map[string]*Contract{}, Specs: map[string]*SpecFunc{}, ModSets: map[string][]string{}}
 	for _, f := range files {
 		if err := cs.loadFile(f); err != nil {
 			return nil, err
@@ -521,7 +523,7 @@ func (cs *Contracts) loadFile(file string) error {
 		if i := strings.IndexAny(first, " \t:"); i >= 0 {
 			first = first[:i]
 		}
-		isHdr := first == "func" || first == "trusted" || first == "spec" || first == "uninterpreted" || first == "opaque" || first == "axiom" || first == "lemma"
+		isHdr := first == "func" || first == "trusted" || first == "spec" || first == "uninterpreted" || first == "opaque" || first == "axiom" || first == "lemma" || first == "modset"
 		if isHdr || clauseKw[first] || len(joined) == 0 {
 			joined = append(joined, l)
 		} else {
@@ -558,6 +560,25 @@ func (cs *Contracts) loadFile(file string) error {
 				sf.Rec = strings.Contains(m[6], sf.Name+"(")
 			}
 			cs.Specs[sf.Name] = sf
+			cur = nil
+			continue
+		}
+		if strings.HasPrefix(l.s, "modset ") {
+			rest := strings.TrimSpace(l.s[7:])
+			i := strings.Index(rest, ":")
+			if i < 0 {
+				return fail(fmt.Errorf("modset needs name:"))
+			}
+			var items []string
+			for _, m := range strings.Split(rest[i+1:], ",") {
+				m = strings.TrimSpace(m)
+				if strings.HasPrefix(m, "@") {
+					items = append(items, cs.ModSets[m[1:]]...)
+				} else if m != "" {
+					items = append(items, m)
+				}
+			}
+			cs.ModSets[strings.TrimSpace(rest[:i])] = items
 			cur = nil
 			continue
 		}
@@ -664,6 +685,14 @@ func (cs *Contracts) loadFile(file string) error {
 			cur.HasMod = true
 			for _, m := range strings.Split(rest, ",") {
 				m = strings.TrimSpace(m)
+				if strings.HasPrefix(m, "@") {
+					set, ok := cs.ModSets[m[1:]]
+					if !ok {
+						return fail(fmt.Errorf("unknown modset %s", m))
+					}
+					cur.Modifies = append(cur.Modifies, set...)
+					continue
+				}
 				if m != "" && m != "nothing" {
 					cur.Modifies = append(cur.Modifies, m)
 				}
@@ -695,6 +724,12 @@ func (cs *Contracts) loadFile(file string) error {
 					return err
 				}
 				ls.Inv = append(ls.Inv, c)
+			case "exit":
+				c, err := mk("exit", rest2, k)
+				if err != nil {
+					return err
+				}
+				ls.Exit = append(ls.Exit, c)
 			case "ghost":
 				i := strings.Index(rest2, "=")
 				if i < 0 {
